@@ -309,7 +309,13 @@ impl Check for C08 {
             }
             let spec = match sub {
                 Sub::Fault(si, kind, mode) => attacked_spec(&cfg, mode.clone(), vec![fault_at(cfg.c, &ss[*si], kind.clone())], vec![], None, &r.decisions),
-                Sub::Crash(k) => attacked_spec(&cfg, AdvMode::Live, vec![], vec![], Some((cfg.c, *k)), &r.decisions),
+                Sub::Crash(k) => {
+                    let mut sp = attacked_spec(&cfg, AdvMode::Live, vec![], vec![], Some((cfg.c, *k)), &r.decisions);
+                    // both real behaviours of a transport towards a vanished peer: the send fails, or it
+                    // is swallowed and only the next receive notices
+                    sp.send_to_closed_errs = k % 2 == 0;
+                    sp
+                }
             };
             cx.begin(&serde_json::to_value(&spec).unwrap());
             let run = run_attack(&spec, Some(r.run.clone()));
